@@ -3,6 +3,14 @@
   on how the bytes arrive.  Statements and short proofs; the work is in `Echse/Lemmas/Ical1 .. Ical19` and
   `IcalFlat`: `feed` over ANY chunking computes a byte-at-a-time automaton (`runA`, Ical8) over the
   concatenation, followed by `finish` (Ical17) for the last pull.
+
+  Since the repair of the newline mark (a flag `eolp` of the parser instead of a `\001` byte behind a
+  NON-EMPTY stash) an empty line whose newline ends a buffer can be continued by a fold in the next buffer
+  just as within one buffer.  The former condition `NoFoldOnEmpty` (no fold right after an empty line) is
+  gone from `Tidy`, and its witness `empty_fold_matters` has become `empty_fold_independent`: the two
+  chunkings of that witness now give the same lines, and every other chunking of it does, too
+  (`empty_fold_any_chunking`, an instance of `chunk_independent`).  What is left in `Tidy` - no backslash,
+  logical lines that fit the stash, a plain last line - still has a witness each, below.
 -/
 import Echse.Lemmas.Ical19
 namespace C10
@@ -22,12 +30,6 @@ partly in the buffer is dropped when `bytes left in the buffer ≥ 1024 - stash 
 unfold to (finding D18d; witness below: `raw_matters`). -/
 def LinesShort (bs : List Byte) : Prop := allSc (fun s _ => decide (s.raw < 1000)) {} bs = true
 
-/-- no fold continues an EMPTY line (nothing but CRs since the last line end): `_ical_pull` leaves its
-`\001` mark only on a non-empty stash, so `LF | SP x` keeps the space while `LF SP x` in one buffer drops it
-(witness below: `empty_fold_matters`). -/
-def NoFoldOnEmpty (bs : List Byte) : Prop :=
-  allSc (fun s rest => !(s.pend && s.empty && isFold (rest.headD 0))) {} bs = true
-
 /-- if the input ends in a complete non-empty line, that last logical line has no SP/TAB content byte:
 the last pull decides whether the marked stash is a complete line by looking at `*BP` of the OLD buffer
 (the first unconsumed byte of the last chunk), so a last line cut in front of a space is never processed
@@ -38,10 +40,10 @@ def LastLinePlain (bs : List Byte) : Prop :=
 def Tidy (bs : List Byte) : Prop :=
   (∀ b ∈ bs, b ≠ 92) ∧        -- no backslash (finding D17)
   (∀ b ∈ bs, b ≠ 0) ∧         -- no NUL (as asked for; the proof does not use it)
-  LinesShort bs ∧ NoFoldOnEmpty bs ∧ LastLinePlain bs
+  LinesShort bs ∧ LastLinePlain bs
 
 instance (bs : List Byte) : Decidable (Tidy bs) := by
-  unfold Tidy LinesShort NoFoldOnEmpty LastLinePlain; infer_instance
+  unfold Tidy LinesShort LastLinePlain; infer_instance
 
 theorem allSc_and (φ ψ : Sc → List Byte → Bool) : ∀ (l : List Byte) (s : Sc),
     allSc (fun s r => φ s r && ψ s r) s l = (allSc φ s l && allSc ψ s l)
@@ -50,17 +52,12 @@ theorem allSc_and (φ ψ : Sc → List Byte → Bool) : ∀ (l : List Byte) (s :
     rw [allSc, allSc, allSc, allSc_and φ ψ r]
     cases φ s (c :: r) <;> cases ψ s (c :: r) <;> simp
 
-theorem tidy_good (bs : List Byte) (h : Tidy bs) : Good {} bs := by
-  unfold Good
-  have : okAt = fun s r => (fun s _ => decide (s.raw < 1000)) s r &&
-      (fun s rest => !(s.pend && s.empty && isFold (rest.headD 0))) s r := by
-    funext s r; rfl
-  rw [this, allSc_and, h.2.2.1, h.2.2.2.1]; rfl
+theorem tidy_good (bs : List Byte) (h : Tidy bs) : Good {} bs := h.2.2.1
 
 theorem tidy_last (bs : List Byte) (h : Tidy bs) :
     (runSc {} bs).pend = true → (runSc {} bs).empty = false → (runSc {} bs).sp = false := by
   intro h1 h2
-  have := h.2.2.2.2
+  have := h.2.2.2
   unfold LastLinePlain at this
   rw [h1, h2] at this
   simpa using this
@@ -94,7 +91,7 @@ theorem chunk_independent (bs : List Byte) (chunks : List (List Byte)) (hc : chu
 /-! ### the stash is never overrun (no hypothesis on the input) -/
 
 /-- `_ical_pull`, `echs_evical_pull` and the callers' loop keep the stash fill below the size of the stash
-(the byte at `stash[six]` - terminator or mark - is inside the buffer as well) -/
+(the terminator byte at `stash[six]` is inside the buffer as well) -/
 theorem stash_bounded :
     (∀ fuel p, p.stash.length < stashSize → (pull fuel p).1.stash.length < stashSize) ∧
     (∀ fuel p, p.stash.length < stashSize → (pullIns fuel p).1.stash.length < stashSize) ∧
@@ -178,12 +175,37 @@ theorem fold_split_between_lf_and_sp :
     (feed [[65, 58, 49, 10], [32, 50, 10, 66, 58, 10]]).2 = (feed [[65, 58, 49, 10, 32, 50, 10, 66, 58, 10]]).2 := by
   decide
 
-/-! ### why `Tidy` has its conjuncts: inputs on which the parse DOES depend on the chunking -/
+/-! ### a fold behind an EMPTY line: no longer a condition
 
-/-- without `NoFoldOnEmpty`: `LF | SP B LF C LF` -/
-theorem empty_fold_matters :
-    (feed [[10], [32, 66, 10, 67, 10]]).2 = [[32, 66], [67]] ∧ (feed [[10, 32, 66, 10, 67, 10]]).2 = [[66], [67]] := by
+`LF | SP B LF C LF` was the witness `empty_fold_matters` for the former conjunct `NoFoldOnEmpty` of `Tidy`: cut
+behind the LF the parser acted upon ` B` and `C`, in one buffer upon `B` and `C`. -/
+
+/-- the two chunkings of the old witness now give the same lines -/
+theorem empty_fold_independent :
+    (feed [[10], [32, 66, 10, 67, 10]]).2 = [[66], [67]] ∧ (feed [[10, 32, 66, 10, 67, 10]]).2 = [[66], [67]] := by
   decide
+
+/-- and so does every other chunking of it: the input is `Tidy` now -/
+theorem empty_fold_any_chunking (chunks : List (List Byte)) (hc : chunks.flatten = [10, 32, 66, 10, 67, 10])
+    (hne : ∀ c ∈ chunks, c ≠ []) : feed chunks = feed [[10, 32, 66, 10, 67, 10]] :=
+  chunk_independent _ chunks hc hne (by decide)
+
+/-- `BEGIN:VCALENDAR`, `BEGIN:VEVENT`, an empty line (CR LF), ` SUMMARY:x`, `END:VEVENT`: the cut behind the
+LF of the empty line, directly computed; the folded `SUMMARY:x` is a property line of the one instruction -/
+def calEmptyFold : List Byte :=
+  [66, 69, 71, 73, 78, 58, 86, 67, 65, 76, 69, 78, 68, 65, 82, 10,
+   66, 69, 71, 73, 78, 58, 86, 69, 86, 69, 78, 84, 10,
+   13, 10,
+   32, 83, 85, 77, 77, 65, 82, 89, 58, 120, 10,
+   69, 78, 68, 58, 86, 69, 86, 69, 78, 84, 10]
+
+set_option maxRecDepth 100000 in
+example : Tidy calEmptyFold ∧ (calEmptyFold.take 31).getLast? = some 10 ∧ (calEmptyFold.drop 31).head? = some 32 ∧
+    view (feed [calEmptyFold.take 31, calEmptyFold.drop 31]) = view (feed [calEmptyFold]) ∧
+    (feed [calEmptyFold]).1.map (·.lines) = [[[83, 85, 77, 77, 65, 82, 89, 58, 120]]] := by
+  decide
+
+/-! ### why `Tidy` has its conjuncts: inputs on which the parse DOES depend on the chunking -/
 
 /-- without `LastLinePlain`: `A:1 | SP 2 LF` - the last line is not acted upon when cut in front of the space -/
 theorem last_line_matters :
